@@ -28,6 +28,7 @@ def run(chk):
     r5(chk, prog, m)
     r6(chk, prog, m)
     r7(chk, prog, m)
+    r8(chk, prog, m, "C12.R8")
     chk.undecided_clauses += [
         "agreement with an RFC 6901 evaluator on generated trees and pointers (needs execution)",
         "json_pointer_getf/setf formatting (vasprintf on data)",
@@ -497,8 +498,9 @@ class _UnescPE(StrPE):
         return self.libc_string_model(state, frame, i, args)
 
 
-def _unescape_fn(m):
-    """the routine that turns a reference token into a member name: the function whose callees replace "~1" and "~0" """
+def _unescape_fn(m, prog=None):
+    """the routine that turns a reference token into a member name: the function whose callees replace "~1" and "~0"; failing
+    that, any one-argument function of the module that is evaluated to be RFC 6901's decoding on short tokens"""
     for f in m.functions.values():
         if f.is_decl:
             continue
@@ -506,6 +508,12 @@ def _unescape_fn(m):
         lits = [l for l in lits if l]
         if "'~1'" in lits and "'~0'" in lits and len(f.params) == 1:
             return f
+    if prog is not None:
+        cands = [f for f in m.functions.values() if not f.is_decl and len(f.params) == 1 and f.params[0][0] == "i8*"]
+        cands.sort(key=lambda f: (0 if "unescape" in f.name else 1, f.name))
+        for f in cands:
+            if _is_unescape_routine(prog, f):
+                return f
     return None
 
 
@@ -515,8 +523,14 @@ def r7(chk, prog, m):
     chk.rule(rid, "the token unescape routine, partially evaluated on every token of length 0..5 over the characters '~' '0' '1' '/' 'a' "
                   "(all that the routine distinguishes), yields RFC 6901's decoding: each \"~1\" of the token becomes '/', then each "
                   "\"~0\" becomes '~', every escape is decoded once and produced characters are never decoded again")
-    f = _unescape_fn(m)
-    chk.require(f is not None, "no function of json_pointer.c replaces both \"~1\" and \"~0\" in a token")
+    f = _unescape_fn(m, prog)
+    if f is None:
+        # no dedicated routine is recognisable (by its replacements or by evaluation): the uses of tokens as member names are
+        # decided one by one by the member-name rule; nothing to say about "the" routine
+        chk.undecided(rid, m.srcname, "unescape routine", "%s:1:1" % m.srcname,
+                      "no function of %s is recognisable as the token unescape routine (none replaces both \"~1\" and \"~0\", and no "
+                      "one-argument string function evaluates to RFC 6901's decoding)" % m.srcname)
+        return
     chk.touched(f)
     n = 0
     bad = None
@@ -552,3 +566,248 @@ def r7(chk, prog, m):
     else:
         chk.proven(rid, f.name, sig, f.entry.term.locstr(), "%d tokens decoded as RFC 6901 requires" % n)
     chk.floor(rid, n, 3000, "tokens evaluated")
+
+
+# ---------------------------------------------------------------------------
+# R8 member names by evaluation: what string reaches the object API for a given reference token
+NAME_APIS = {"json_object_object_get_ex": 1, "json_object_object_add": 1, "json_object_object_add_ex": 1,
+             "json_object_object_del": 1, "json_object_object_get": 1, "lh_table_lookup_ex": 1, "lh_table_lookup_entry": 1}
+RESOLVERS = ("json_pointer_get_internal",)
+
+
+def rfc6901_decode(tok):
+    return tok.replace(b"~1", b"/").replace(b"~0", b"~")
+
+
+class _NamePE(StrPE):
+    """one function that turns a reference token into a member name, run on one concrete token.  conv 'token': the function's
+    string parameter (or the key recorded in its resolution-result parameter) is the token itself; conv 'pointer': the string
+    parameter is the one-token pointer "/<token>" and the resolver is answered with a result whose key points into it"""
+    model_alloc = True
+
+    def __init__(self, prog, fn, token, conv):
+        super().__init__(prog, max_leaves=60, max_steps=400000)
+        self.fn0 = fn
+        self.token = token
+        self.conv = conv
+        self.text = token if conv == "token" else b"/" + token
+        self.loop_widen = 100000
+        self.max_visits = 1500
+        self.captured = []
+        self.opaque = []
+        self.mods = {fn.module}
+        for nm in ("json_pointer.c", "json_patch.c"):
+            mm = prog.module(nm)
+            if mm is not None:
+                self.mods.add(mm)
+
+    def should_inline(self, g, instr):
+        if g.internal:
+            return True
+        # string helpers of the pointer / patch modules with external linkage (the unescape routine)
+        return g.module in self.mods and not g.is_decl and g.name not in NAME_APIS and g.name not in RESOLVERS and \
+            all(t in ("i8*", "i8", "i32", "i64") for t, _ in g.params) and g is not self.fn0
+
+    def _result_fields(self):
+        for mm in self.prog.modules:
+            fn = mm.struct_fields("%struct.json_pointer_get_result")
+            if fn:
+                return fn
+        return None
+
+    def init_mem(self, state, base, path, t):
+        el, fl = pe.fields_of(path)
+        if base == "text":
+            if not fl and isinstance(el, int) and 0 <= el <= len(self.text):
+                b = (self.text + b"\0")[el]
+                return pe.C(b if b < 128 else b - 256)
+            return pe.TOP
+        if base == "errno" and not path:
+            return pe.C(0)
+        if base == "resp" and not path:
+            return ("ptr", "parent", ())
+        if base == "jp":
+            names = self._result_fields()
+            idx = None
+            q = [x for x in path if x != ("i", 0)]
+            if not q:
+                idx = 0
+            elif len(q) == 1 and isinstance(q[0], int):
+                idx = q[0]
+            elif len(q) == 1 and isinstance(q[0], tuple) and q[0][0] == "f":
+                idx = q[0][2]
+            if names is None or idx is None or idx >= len(names):
+                return pe.TOP
+            return self._result_value(names[idx])
+        return pe.TOP
+
+    def _result_value(self, name):
+        if name == "parent":
+            return ("ptr", "parent", ())
+        if name == "obj":
+            return ("ptr", "child", ())
+        if name == "key_in_parent":
+            return ("ptr", "text", (("i", 0 if self.conv == "token" else 1),))
+        if name == "index_in_parent":
+            return pe.C(0)
+        return pe.TOP
+
+    def call_model(self, state, frame, i, args):
+        nm = i.callee
+        if nm in NAME_APIS:
+            k = NAME_APIS[nm]
+            if len(i.ops) > k and strip_casts(i.ops[k]).kind in ("global", "cexpr"):
+                return None           # a fixed member name of the patch document
+            key = self._cstr(state, args[k]) if len(args) > k and args[k][0] == "ptr" else None
+            self.captured.append((nm, key, i))
+            return "STOP"
+        if nm == "__errno_location":
+            return ("ptr", "errno", ())
+        if nm in ("json_object_is_type", "json_object_get_type"):
+            if args and args[0] == ("ptr", "parent", ()):
+                if nm == "json_object_get_type":
+                    return pe.C(4)
+                return pe.C(int(pe.is_const(args[1]) and args[1][1] == 4)) if pe.is_const(args[1]) else None
+            return None
+        if nm in RESOLVERS and self.conv == "pointer" and len(args) >= 3 and args[2][0] == "ptr":
+            # the resolver is answered from the script only for the scripted pointer string
+            if args[1] != ("ptr", "text", ()):
+                return None
+            names = self._result_fields()
+            if names is None:
+                return None
+            for idx, fname in enumerate(names):
+                self.store(state, self._gep(args[2], [pe.C(0), pe.C(idx)], "%struct.json_pointer_get_result"), self._result_value(fname))
+            return pe.C(0)
+        r = self.libc_string_model(state, frame, i, args)
+        if r is not None:
+            return r
+        if nm and not nm.startswith("llvm."):
+            self.opaque.append(nm)
+        return None
+
+
+def _name_carriers(f):
+    return [k for k, (t, nm) in enumerate(f.params) if t in ("i8*", "%struct.json_pointer_get_result*")]
+
+
+def _name_args(f, carrier):
+    """arguments for one run with parameter number `carrier` carrying the token"""
+    args = []
+    for k, (t, nm) in enumerate(f.params):
+        if k == carrier:
+            args.append(("ptr", "text", ()) if t == "i8*" else ("ptr", "jp", ()))
+        elif t == "%struct.json_object*":
+            args.append(("ptr", "parent", ()))
+        elif t == "%struct.json_object**":
+            args.append(("ptr", "resp", ()))
+        elif t.endswith("*"):
+            args.append(("ptr", "arg_" + (nm or "x"), ()))
+        else:
+            args.append(pe.TOP)
+    return args
+
+
+def _boundary_lengths(f):
+    """lengths at which a fixed-size buffer or a length comparison in the function could bite"""
+    out = set()
+    for i in f.instrs():
+        if i.op == "alloca":
+            from ..ir import array_elem
+            ae = array_elem(i.x.get("type", "") if isinstance(i.x, dict) else "") if False else None
+        if i.op == "alloca" and (i.type or "").startswith("["):
+            try:
+                n = int((i.type or "")[1:].split("x")[0])
+            except ValueError:
+                continue
+            if 2 <= n <= 300:
+                out |= {n - 2, n - 1, n, n + 1}
+        if i.op == "icmp":
+            for o in i.ops:
+                if o.kind == "int" and 8 <= o.v <= 300:
+                    out |= {o.v - 1, o.v, o.v + 1}
+    return sorted(x for x in out if x >= 0)
+
+
+def r8(chk, prog, m, rid):
+    from itertools import product
+    chk.rule(rid, "member names by evaluation: every function of the module that hands a string to the object API (lookup, add, delete) "
+                  "and takes a reference token - directly, as the key of a resolution result, or as a one-token pointer - is run on "
+                  "every token of up to 4 characters over '~' '0' '1' '/' 'a' and on tokens whose length straddles each buffer size / "
+                  "length constant in the function; the string that reaches the object API must be the RFC 6901 decoding of the token "
+                  "(whole, escapes decoded once, ~1 before ~0).  A function whose token interface cannot be calibrated on the plain "
+                  "token \"ab\" is undecided")
+    toks = []
+    for ln in range(0, 5):
+        toks += [bytes(t) for t in product(b"~01/a", repeat=ln)]
+    n = 0
+    nf = 0
+    for f in [g for g in m.functions.values() if not g.is_decl]:
+        apis = [i for i in f.instrs() if i.op == "call" and i.callee in NAME_APIS and
+                not (len(i.ops) > NAME_APIS[i.callee] and strip_casts(i.ops[NAME_APIS[i.callee]]).kind in ("global", "cexpr"))]
+        if not apis:
+            continue          # only fixed member names ("op", "path", "value"): not a use of a reference token
+        nf += 1
+        chk.touched(f)
+        sig = "member name reaching %s" % "/".join(sorted({i.callee for i in apis}))
+        conv = None
+        carrier = None
+        why = "no parameter carries a token"
+        for cr in _name_carriers(f):
+            for cv in ("token", "pointer"):
+                h = _NamePE(prog, f, b"ab", cv)
+                try:
+                    h.run(f, _name_args(f, cr), pe.State())
+                except Exception as e:       # budget
+                    why = str(e)
+                    continue
+                if h.captured and all(k == b"ab" for _, k, _ in h.captured):
+                    conv, carrier = cv, cr
+                    break
+                why = "on the token \"ab\" the object API is %s%s" % (
+                    "not reached" if not h.captured else "given %r" % [k for _, k, _ in h.captured],
+                    (" (calls outside the model: %s)" % ", ".join(sorted(set(h.opaque)))) if h.opaque else "")
+            if conv:
+                break
+        if conv is None:
+            chk.undecided(rid, f.name, sig, apis[0].locstr(), "token interface not calibrated: " + why)
+            continue
+        extra = []
+        for ln in _boundary_lengths(f):
+            extra.append(b"a" * ln)
+            if ln >= 2:
+                extra.append(b"a" * (ln - 2) + b"~1")
+        bad = None
+        und = None
+        cnt = 0
+        for tk in toks + extra:
+            if conv == "pointer" and b"/" in tk:
+                continue          # more than one token
+            h = _NamePE(prog, f, tk, conv)
+            try:
+                h.run(f, _name_args(f, carrier), pe.State())
+            except Exception as e:
+                und = und or (tk, str(e))
+                continue
+            n += 1
+            cnt += 1
+            want = rfc6901_decode(tk)
+            if not h.captured:
+                und = und or (tk, "the object API is not reached")
+                continue
+            for api, key, ins in h.captured:
+                if key is None:
+                    und = und or (tk, "the string handed to %s is not concrete" % api)
+                elif key != want and bad is None:
+                    bad = (tk, api, key, want, ins)
+        if bad:
+            tk, api, key, want, ins = bad
+            show = lambda b: (b.decode("latin1") if len(b) <= 24 else "%s...(%d bytes)" % (b[:12].decode("latin1"), len(b)))
+            chk.refuted(rid, f.name, sig, ins.locstr(),
+                        "for the reference token %r the member name handed to %s is %r; RFC 6901 names the member %r"
+                        % (show(tk), api, show(key), show(want)), {"token": tk.decode("latin1")})
+        elif und:
+            chk.undecided(rid, f.name, sig, apis[0].locstr(), "token %r: %s" % (und[0].decode("latin1")[:24], und[1]))
+        else:
+            chk.proven(rid, f.name, sig, apis[0].locstr(), "RFC 6901 decoding of the token on %d tokens (%s in)" % (cnt, conv))
+    return nf, n
